@@ -414,7 +414,10 @@ theorem notes_handleEvent (cfg : Cfg) (c : Cli) (ns : Option Ns) (id : Option Na
   · simp
 
 theorem notes_ackOuts (cb : Cb) (data : Option J) : notes (ackOuts cb data) = [] := by
-  unfold ackOuts; split <;> simp
+  unfold ackOuts
+  split
+  · split <;> simp
+  · simp
 
 theorem notes_handleAck (c : Cli) (ns : Option Ns) (id : Option Nat) (data : Option J) :
     notes (handleAck c ns id data).2 = [] := by
